@@ -24,7 +24,8 @@ ASSUMPTIONS = [
     'slice bounds range over None and [-len-2, len+2] (clamped like list slicing)',
 ]
 REQUIRED = ['shard_checks', 'merged_index_checks', 'merged_slice_checks',
-            'from_state_checks', 'iterable_shard_checks', 'iterable_nested_shard_checks']
+            'from_state_checks', 'iterable_shard_checks', 'iterable_nested_shard_checks',
+            'failing_record_checks']
 EXHAUSTIVE = {'quick': True, 'thorough': True}
 
 
@@ -48,6 +49,91 @@ class RANoSlice(RA):
     if isinstance(i, slice):
       raise TypeError('no slicing')
     return self._d[i]
+
+
+class FailingRecords:
+  """Random access source whose records in `bad` cannot be read; slices are
+  answered lazily (a generator, like the slices of a MergedSequences) or eagerly."""
+
+  def __init__(self, lo, n, bad, lazy):
+    self._lo, self._n, self._bad, self._lazy = lo, n, set(bad), lazy
+
+  def __len__(self):
+    return self._n
+
+  def _read(self, i):
+    if self._lo + i in self._bad:
+      raise ValueError(f'unreadable record {self._lo + i}')
+    return self._lo + i
+
+  def __getitem__(self, i):
+    if isinstance(i, slice):
+      it = (self._read(j) for j in range(*i.indices(self._n)))
+      return it if self._lazy else list(it)
+    if i < 0:
+      i += self._n
+    if not 0 <= i < self._n:
+      raise IndexError(i)
+    return self._read(i)
+
+
+def check_failing_records_case(ctx, case):
+  """Skipping unreadable records never repeats or drops a readable one.
+
+  case: sizes of the parts, bad = unreadable global indices, lazy, nested, k shards."""
+  from ml_metrics._src.chainables import io
+  from ml_metrics._src.utils import iter_utils
+  sizes, bad, k = case['sizes'], set(case['bad']), case['k']
+  parts, lo = [], 0
+  for sz in sizes:
+    parts.append(FailingRecords(lo, sz, bad, case['lazy']))
+    lo += sz
+  n = lo
+  if case['nested'] and len(parts) >= 2:
+    data = iter_utils.MergedSequences([iter_utils.MergedSequences(parts[:-1]), parts[-1]])
+  elif len(parts) == 1:
+    data = parts[0]
+  else:
+    data = iter_utils.MergedSequences(parts)
+  ctx.case(('failing', tuple(sizes), tuple(sorted(bad)), case['lazy'], case['nested'], k),
+           bool(bad) and n >= 2)
+  ctx.count('failing_record_checks')
+  want = [i for i in range(n) if i not in bad]
+  ds = io.SequenceDataSource(data, ignore_error=True)
+  got = []
+  try:
+    for i in range(k):
+      got.extend(list(ds.shard(i, k)))
+  except Exception as e:  # pylint: disable=broad-exception-caught
+    ctx.violation('skipping_source_raised', case, {'error': f'{type(e).__name__}: {e}'[:200]},
+                  mechanism='failing-records:raised')
+    return
+  if sorted(got) != want or (k == 1 and got != want):
+    dup = sorted({x for x in got if got.count(x) > 1})
+    missing = [x for x in want if x not in got]
+    mech = 'failing-records:' + ('repeated' if dup and not missing else
+                                 'lost' if missing and not dup else 'differs')
+    if case['lazy'] or case['nested']:
+      mech += ':lazy-slice'
+    ctx.violation('failing_records_not_exactly_once', case,
+                  {'got': got[:60], 'want': want[:60], 'repeated': dup[:10],
+                   'missing': missing[:10]}, mechanism=mech)
+
+
+def _run_failing(ctx, count, rseed):
+  rng = random.Random(rseed * 15485863 + 41)
+  for _ in range(count):
+    nparts = rng.randint(1, 3)
+    sizes = [rng.randint(0, 12) for _ in range(nparts)]
+    n = sum(sizes)
+    if rng.random() < 0.15:
+      sizes = [rng.randint(60, 140)]
+      n = sizes[0]
+    nbad = rng.choice([0, 1, 1, 2, 3]) if n else 0
+    bad = rng.sample(range(n), min(nbad, n))
+    check_failing_records_case(ctx, {
+        'failing': 1, 'sizes': sizes, 'bad': bad, 'lazy': rng.random() < 0.6,
+        'nested': rng.random() < 0.3, 'k': rng.choice([1, 1, 2, 3])})
 
 
 def _mk_part(kind, data):
@@ -91,6 +177,8 @@ def plan(tier, seed):
     for p in range(1, merged_p + 1):
       specs.append({'mode': 'merged', 'n': n, 'p': p})
   specs.append({'mode': 'merged_random', 'count': rnd, 'rseed': seed})
+  for j in range(2):
+    specs.append({'mode': 'failing', 'count': rnd // 2 + 50, 'rseed': seed * 2 + j})
   return specs
 
 
@@ -448,12 +536,16 @@ def run_chunk(ctx, spec):
     _run_merged(ctx, spec['n'], spec['p'])
   elif mode == 'merged_random':
     _run_merged_random(ctx, spec['count'], spec['rseed'])
+  elif mode == 'failing':
+    _run_failing(ctx, spec['count'], spec['rseed'])
   if ctx.evaluations and not ctx.samples:
     ctx.sample({'mode': mode, 'spec': {k: v for k, v in spec.items() if k != 'tier'}})
 
 
 def run_case(ctx, case):
-  if 'sizes' in case:
+  if 'failing' in case:
+    check_failing_records_case(ctx, case)
+  elif 'sizes' in case:
     check_merged_case(ctx, {k: case[k] for k in ('sizes', 'kinds', 'read_ahead')})
   elif 'src' in case:
     check_iterable_case(ctx, case)
